@@ -5,22 +5,28 @@ package main
 // Correspondence between the real parser.Parse and the extracted Coq model of the
 // statement-level parser (coq/Parser.v on top of coq/Pratt.v).  The model is fed the
 // token list of the REAL lexer (type, literal, line, column; ILLEGAL tokens included,
-// EOF position separately), the builtin tables (function names + niladic flag, global
-// variable names, event handlers with parameter types) and a typing oracle that never
-// objects (typing is abstracted in the model).  Compared per input:
-//   - accept / reject,
-//   - when rejected: the positions (line, column) of the reported errors, in order, up to
-//     the first error of the real parser that is a TYPING error (the model cannot see
-//     those; after one, the real parser propagates nil and the rest is incomparable).
-// Inputs on which the real parser's first error is a typing error are counted
-// separately and not compared.  Typing messages are recognised by the fixed list
-// typingMarks (every appendError site of expression.go / parser.go that depends on a
-// Type() is listed); this classification only sets inputs aside, it never decides.
+// EOF position separately) and the builtin tables (function names + niladic flag, global
+// variable names, event handlers with parameter types).
+//
+// Typing is abstracted in the model by an oracle keyed by (site, blamed token).  The
+// harness instantiates it with what the real type checker did on this very input: every
+// error of parser.Parse is classified by its message (errorClass: the complete list of
+// appendError sites whose condition consults a Type()) as
+//   - syntactic (the model must report it itself),
+//   - typing at a site whose blamed token the model mirrors (-> the oracle objects there),
+//   - typing, errors-only, blamed token not mirrored (assertArgTypes: arg.Token();
+//     parseStepRange: the range token) -> removed from the comparison; these sites do not
+//     change the control flow of the parser.
+// Compared per input: accept / reject and the COMPLETE ordered list of error positions
+// (line, column).  So the control flow of the parser after a type error (nil returns,
+// advancePastNL recovery) is exercised against the model as well.  The classification
+// only builds the oracle; a wrong classification shows up as a difference, never hides one.
 
 import (
 	"encoding/json"
 	"errors"
 	"fmt"
+	"math/rand"
 	"os"
 	"path/filepath"
 	"regexp"
@@ -33,30 +39,54 @@ import (
 	"evylang.dev/evy/pkg/parser"
 )
 
-// messages of error sites whose condition consults the type of a node
-var typingMarks = []string{
-	`unary expects`, `invalid unary operator`, `invalid binary operator`, `mismatched type for`,
-	`" takes num, string or array type`, `" takes num or array type`, `array repetition ("*")`, `takes num type, found`,
-	`takes num or string type`, `takes bool type`,
-	`only array, string and map type can be indexed`, `index expects num`, `index expects string`,
-	`only array and string can be sliced`, `start index expects num`, `end index expects num`,
-	`field access with "." expects map type`, `value of type assertion must be of type any`,
-	`array element has no value`, `map value has no value`,
-	`takes variadic arguments of type`, ` as argument, it has no return value`, ` argument, it has no return value`,
-	` takes `, // "f" takes N arguments, found M / takes 1st argument of type ...
-	`accepts values of type`, `cannot index string on left side`,
-	`invalid declaration, function`, `expected return value of type`, `expected no return value`,
-	`range with more than one argument must be num`, `expected num, string, array or map after range`,
-	`range can take up to 3 num arguments`, `range expects num type`, `expected condition of type bool`,
-}
-
-func isTypingMessage(msg string) bool {
-	for _, m := range typingMarks {
-		if strings.Contains(msg, m) {
-			return true
+// errorClass maps the message of a parser error to "" (syntactic / scope error, modelled),
+// a typing site name of Pratt.tsite (the model mirrors the blamed token), or "-" (typing,
+// errors only, blamed token not mirrored).
+func errorClass(msg string) string {
+	has := func(x string) bool { return strings.Contains(msg, x) }
+	switch {
+	case has("unary expects"), has("invalid unary operator"):
+		return "unary"
+	case has(" takes ") && has("argument"), has("it has no return value") && !has("invalid declaration"):
+		return "-" // assertArgTypes
+	case has("invalid binary operator"), has("mismatched type for"), has(`" takes num, string or array type`), has(`" takes num or array type`),
+		has(`array repetition ("*")`), has("takes num type, found"), has("takes num or string type"), has("takes bool type"):
+		return "binary"
+	case has("only array, string and map type can be indexed"):
+		return "not_indexable"
+	case has("index expects num"), has("index expects string"):
+		if has("start index") || has("end index") {
+			return "slice_bounds"
 		}
+		return "index_type"
+	case has("only array and string can be sliced"):
+		return "not_sliceable"
+	case has(`field access with "." expects map type`):
+		return "dot_not_map"
+	case has("value of type assertion must be of type any"):
+		return "assert_not_any"
+	case has("array element has no value"):
+		return "array_elem_none"
+	case has("map value has no value"):
+		return "map_value_none"
+	case has("accepts values of type"):
+		return "assign_type"
+	case has("cannot index string on left side"):
+		return "assign_string_index"
+	case has("invalid declaration, function"):
+		return "decl_none"
+	case has("expected return value of type"), has("expected no return value"):
+		return "return_type"
+	case has("range with more than one argument must be num"):
+		return "for_multi"
+	case has("expected num, string, array or map after range"):
+		return "for_range_type"
+	case has("range can take up to 3 num arguments"), has("range expects num type"):
+		return "-" // parseStepRange
+	case has("expected condition of type bool"):
+		return "condition"
 	}
-	return false
+	return ""
 }
 
 var c03pErrRE = regexp.MustCompile(`^line (\d+) column (\d+): (.*)$`)
@@ -143,9 +173,10 @@ type modelParse struct {
 	Raw    string
 }
 
-func c03pModelParse(model *Model, src string) (modelParse, error) {
+func c03pModelParse(model *Model, src string, g goParse) (modelParse, bool, error) {
 	l := lexer.New(src)
 	var toks []SX
+	var good [][2]int // positions of the tokens the parser keeps (ILLEGAL ones are dropped)
 	var eof *lexer.Token
 	limit := len([]rune(src)) + 2
 	for i := 0; ; i++ {
@@ -155,15 +186,33 @@ func c03pModelParse(model *Model, src string) (modelParse, error) {
 			break
 		}
 		toks = append(toks, Lst(Sym(t.Type.String()), Str(t.Literal), Int(int64(t.Line)), Int(int64(t.Col))))
+		if t.Type != lexer.ILLEGAL {
+			good = append(good, [2]int{t.Line, t.Col})
+		}
 	}
-	q := Lst(c03pTables[0], c03pTables[1], c03pTables[2], LstOf(toks), Lst(Int(int64(eof.Line)), Int(int64(eof.Col))))
+	// the oracle: typing errors of the real parser as (site, tokens left after the blamed token)
+	left := map[[2]int]int{{eof.Line, eof.Col}: 0}
+	for i, p := range good {
+		left[p] = len(good) - i
+	}
+	var oracle []SX
+	for _, e := range g.Errs {
+		if c := errorClass(e.Msg); c != "" && c != "-" {
+			n, ok := left[[2]int{e.Line, e.Col}]
+			if !ok {
+				return modelParse{}, false, nil // blamed position is not a token: cannot build the oracle
+			}
+			oracle = append(oracle, Lst(Sym(c), Int(int64(n))))
+		}
+	}
+	q := Lst(c03pTables[0], c03pTables[1], c03pTables[2], LstOf(toks), Lst(Int(int64(eof.Line)), Int(int64(eof.Col))), LstOf(oracle))
 	ans, err := model.Ask(q.String())
 	if err != nil {
-		return modelParse{}, err
+		return modelParse{}, true, err
 	}
 	x, err := ParseSX(ans)
 	if err != nil || x.Kind != "lst" || len(x.L) < 1 {
-		return modelParse{Raw: ans}, fmt.Errorf("model answer: %.200s", ans)
+		return modelParse{Raw: ans}, true, fmt.Errorf("model answer: %.200s", ans)
 	}
 	m := modelParse{Status: x.L[0].S, Raw: ans}
 	for _, e := range x.L[1:] {
@@ -173,23 +222,23 @@ func c03pModelParse(model *Model, src string) (modelParse, error) {
 			m.Errs = append(m.Errs, [2]int{a, b})
 		}
 	}
-	return m, nil
+	return m, true, nil
 }
 
 // c03pCheck compares one input; returns a short outcome label for the distribution.
 func c03pCheck(src, stream string, model *Model, r *Result) string {
-	if strings.ContainsRune(src, 0) && false {
-		return "skip"
-	}
 	g := c03pGoParse(src)
 	if g.Status == "panic" {
 		return "go-panic" // reported by the parser oracle of C03 proper
 	}
-	m, err := c03pModelParse(model, src)
+	m, ok, err := c03pModelParse(model, src, g)
 	input := map[string]any{"source": src, "stream": stream}
 	if err != nil {
 		r.Violate(Violation{Kind: "correspondence", Key: "parser-model-crash", Detail: err.Error(), Input: input})
 		return "model-error"
+	}
+	if !ok {
+		return "set-aside:typing-error-not-at-a-token"
 	}
 	if m.Status == "crash" || m.Status == "oof" || (m.Status != "accept" && m.Status != "reject") {
 		r.Violate(Violation{Kind: "correspondence", Key: "parser-model-" + m.Status,
@@ -197,61 +246,63 @@ func c03pCheck(src, stream string, model *Model, r *Result) string {
 		return "model-" + m.Status
 	}
 	r.Validated++
-	if g.Status == "accept" {
-		if m.Status != "accept" {
-			r.Violate(Violation{Kind: "correspondence", Key: "parser-model-rejects-accepted-program",
-				Detail: "parser.Parse accepts, the parser model reports errors", Input: input, Impl: "accept", Model: m.Raw})
-			return "diff"
+	// the comparable errors of the real parser: all but the errors-only typing errors whose blamed token is not mirrored
+	var impl [][2]int
+	typing, dropped := 0, 0
+	for _, e := range g.Errs {
+		switch errorClass(e.Msg) {
+		case "-":
+			dropped++
+			continue
+		case "":
+		default:
+			typing++
 		}
-		return "both-accept"
-	}
-	// Go rejects: the comparable prefix of its error list
-	n := 0
-	for n < len(g.Errs) && !isTypingMessage(g.Errs[n].Msg) {
-		n++
-	}
-	if n == 0 {
-		return "set-aside:first-error-is-typing"
-	}
-	impl := make([][2]int, 0, n)
-	for _, e := range g.Errs[:n] {
 		impl = append(impl, [2]int{e.Line, e.Col})
 	}
 	show := func() any {
 		var l []string
 		for _, e := range g.Errs {
-			l = append(l, fmt.Sprintf("%d:%d %s", e.Line, e.Col, e.Msg))
+			l = append(l, fmt.Sprintf("%d:%d [%s] %s", e.Line, e.Col, errorClass(e.Msg), e.Msg))
 		}
 		return l
 	}
-	if m.Status != "reject" {
-		r.Violate(Violation{Kind: "correspondence", Key: "parser-model-accepts-rejected-program",
-			Detail: "parser.Parse reports a non-typing error first, the parser model accepts", Input: input, Impl: show(), Model: m.Raw})
-		return "diff"
-	}
-	full := n == len(g.Errs)
-	ok := len(m.Errs) >= n && (!full || len(m.Errs) == n)
-	for i := 0; ok && i < n; i++ {
-		ok = m.Errs[i] == impl[i]
-	}
-	if !ok {
-		key := "parser-model-error-positions-differ"
-		if len(m.Errs) > 0 && m.Errs[0] != impl[0] {
-			key = "parser-model-first-error-position-differs"
+	label := "both-accept"
+	if len(impl) > 0 {
+		label = "both-reject"
+		if typing > 0 {
+			label += ":with-typing-errors"
 		}
-		r.Violate(Violation{Kind: "correspondence", Key: key,
-			Detail: fmt.Sprintf("error positions differ on the comparable prefix (%d of %d errors before the first typing error)", n, len(g.Errs)),
-			Input:  input, Impl: show(), Model: m.Raw})
-		return "diff"
+	} else if dropped > 0 {
+		label = "both-accept-modulo-unmirrored-typing-errors"
 	}
-	if full {
-		return "both-reject:all-positions-equal"
+	same := len(m.Errs) == len(impl)
+	for i := 0; same && i < len(impl); i++ {
+		same = m.Errs[i] == impl[i]
 	}
-	return "both-reject:prefix-equal"
+	if same {
+		return label
+	}
+	key := "parser-model-error-positions-differ"
+	switch {
+	case len(impl) == 0:
+		key = "parser-model-rejects-accepted-program"
+	case len(m.Errs) == 0:
+		key = "parser-model-accepts-rejected-program"
+	case m.Errs[0] != impl[0]:
+		key = "parser-model-first-error-position-differs"
+	}
+	if typing > 0 {
+		key += ":after-typing-error"
+	}
+	r.Violate(Violation{Kind: "correspondence", Key: key,
+		Detail: fmt.Sprintf("accept/reject or the ordered error positions differ (%d errors of parser.Parse, %d of them typing errors fed to the oracle, %d unmirrored ones left out)", len(g.Errs), typing, dropped),
+		Input:  input, Impl: show(), Model: m.Raw})
+	return "diff"
 }
 
 func runC03parse(cfg Config, r *Result) {
-	r.Rule = "inputs: the mutation streams of C03 (corpus programs from docs/*.md and *.evy, their token-level mutations, splices, statement soups, token soups, string-escape literals, random unicode / bytes). Each goes through parser.Parse (in process, under recover) and through the extracted Coq parser model fed the real lexer's tokens and the builtin tables; compared: accept/reject and the ordered list of error positions (line, column) up to the first typing error of the real parser. non-trivial = at least 3 tokens; distinct = distinct source texts"
+	r.Rule = "inputs: the mutation streams of C03 (corpus programs from docs/*.md and *.evy, their token-level mutations, splices, statement soups, token soups, string-escape literals, random unicode / bytes). Each goes through parser.Parse (in process, under recover) and through the extracted Coq parser model fed the real lexer's tokens and the builtin tables; compared: accept/reject and the complete ordered list of error positions (line, column); the typing errors the real type checker reported are fed to the model as its typing oracle (site, blamed token), errors of assertArgTypes / parseStepRange (errors only, blamed token not mirrored) are left out. non-trivial = at least 3 tokens; distinct = distinct source texts"
 	model, err := StartModel("parser")
 	if err != nil {
 		r.Violate(Violation{Kind: "correspondence", Key: "model-start", Detail: err.Error()})
@@ -338,6 +389,12 @@ func runC03parse(cfg Config, r *Result) {
 		i, j := rng.Intn(len(a)+1), rng.Intn(len(b)+1)
 		run(mutCase{strings.Join(a[:i], "") + strings.Join(b[j:], ""), "splice"})
 	}
+	// type-breaking mutations: literals replaced by literals of another type, operands wrapped in
+	// unary operators / index / field access, so that the type checker objects in the middle of
+	// otherwise well-formed programs (exercises the nil-propagation paths against the model)
+	for k := 0; k < cfg.N(1200, 30000) && len(small) > 0; k++ {
+		run(mutCase{typeMutate(rng, small[rng.Intn(len(small))].Src), "type-mutation"})
+	}
 	for k := 0; k < cfg.N(1500, 40000); k++ {
 		run(mutCase{genStmtSoup(rng, 1+rng.Intn(5)), "stmt-soup"})
 	}
@@ -353,6 +410,53 @@ func runC03parse(cfg Config, r *Result) {
 	for k := 0; k < cfg.N(150, 3000); k++ {
 		run(mutCase{genBytes(rng, 1+rng.Intn(60)), "random-bytes"})
 	}
+}
+
+func typeMutate(rng *rand.Rand, src string) string {
+	sp := spans(src)
+	isLit := func(x string) bool {
+		if x == "" {
+			return false
+		}
+		return x == "true" || x == "false" || x[0] == '"' || (x[0] >= '0' && x[0] <= '9')
+	}
+	isName := func(x string) bool {
+		if x == "" || !(x[0] == '_' || x[0] >= 'a' && x[0] <= 'z' || x[0] >= 'A' && x[0] <= 'Z') {
+			return false
+		}
+		switch x {
+		case "true", "false", "and", "or", "if", "else", "end", "func", "on", "for", "while", "range", "return", "break", "num", "string", "bool", "any", "print":
+			return false
+		}
+		return true
+	}
+	lits := []string{`"s"`, "1", "true", "[1 2]", "{a:1}", "[]", `(print 1)`, "(len 1)"}
+	n := 1 + rng.Intn(3)
+	for try := 0; try < 40 && n > 0; try++ {
+		i := rng.Intn(len(sp))
+		switch x := sp[i]; {
+		case isLit(x):
+			sp[i] = lits[rng.Intn(len(lits))]
+			n--
+		case isName(x) && i+1 < len(sp) && sp[i+1] != ":" && sp[i+1] != ":=" && sp[i+1] != "=":
+			switch rng.Intn(6) {
+			case 0:
+				sp[i] = "-" + x
+			case 1:
+				sp[i] = "!" + x
+			case 2:
+				sp[i] = x + "[0]"
+			case 3:
+				sp[i] = x + ".a"
+			case 4:
+				sp[i] = x + "[1:2]"
+			default:
+				sp[i] = x + ".(num)"
+			}
+			n--
+		}
+	}
+	return strings.Join(sp, "")
 }
 
 // statement forms and error-recovery paths that the mutation streams reach rarely
